@@ -64,6 +64,7 @@ impl VerifCtx<()> for Result<(), VErr> { #[verifier::external_body] fn verif_ctx
 #[verifier::external_body] pub fn cell_snapshot(h: &Heap, v: &VecH) -> (r: Vec<Primitive>) requires live(h, v) ensures r@ == vecs(h)[vid(v)] { unimplemented!() }
 #[verifier::external_body] pub fn cell_extend(h: &mut Heap, v: &VecH, added: Vec<Primitive>) requires live(old(h), v)
     ensures vecs(final(h)) == vecs(old(h)).insert(vid(v), vecs(old(h))[vid(v)] + added@), maps(final(h)) == maps(old(h)) { unimplemented!() }
+pub fn vec_extend_from(v: &mut Vec<Primitive>, t: Vec<Primitive>) ensures final(v)@ == old(v)@ + t@ { let mut t = t; v.append(&mut t); }       // Vec::extend_from_slice
 // GcVector::new: a cell no existing handle points to
 #[verifier::external_body] pub fn cell_new(h: &mut Heap, content: Vec<Primitive>) -> (r: VecH)
     ensures !vecs(old(h)).contains_key(vid(&r)), vecs(final(h)) == vecs(old(h)).insert(vid(&r), content@), maps(final(h)) == maps(old(h)) { unimplemented!() }
@@ -198,6 +199,7 @@ def cells_pass(toks, log, what):
         ("CELL ( $h ) . extend ( $$e )", "cell_extend ( heap , $h , $$e )"),
         ("CELL ( $h ) . to_vec ( )", "cell_snapshot ( heap , $h )"),
         ("Vec :: clone ( CELL ( $h ) . as_ref ( ) )", "cell_snapshot ( heap , $h )"),
+        ("$v . extend_from_slice ( CELL ( $h ) . as_ref ( ) )", "vec_extend_from ( & mut $v , cell_snapshot ( heap , $h ) )"),
         ("CELL ( $h ) . iter ( ) . enumerate ( ) . find ( $$c )", "cell_find_eq ( heap , $h , primitive )"),
         ("CELL ( $a ) [ .. ] . eq ( CELL ( $b ) . as_slice ( ) )", "cell_slice_eq ( heap , $a , $b )"),
         ("CELL ( $a ) . iter ( ) . zip ( CELL ( $b ) . iter ( ) ) . all ( | ( $x , $y ) | $x == $y )", "cell_zip_all_eq ( heap , $a , $b )"),
@@ -352,6 +354,34 @@ pub fn vec_op_push(stack: &mut Vec<Primitive>, locals: &Locals, op_name: &OpName
     Ok(())
 }}
 """)
+    # `a + b` on two lists: impl Add for &Primitive, arm (Vector(x), Vector(y))
+    ADD = "bytecode/src/variables/ops/add.rs"
+    fadd = src.fn(ADD, "add", "impl std :: ops :: Add for & Primitive")
+    try:
+        aarm = extract_match_arm(fadd["body"], "( Vector ( x ) , Vector ( y ) )")
+    except Exception as e:
+        raise Undecided(f"{ADD}: arm (Vector(x), Vector(y)) of Add for &Primitive not found: {e}")
+    ba = cells_pass(aarm["body"], log, "add[Vector]")
+    ba = translate(ba, [
+        Rule("R13", "$v . extend_from_slice ( cell_snapshot ( heap , $h ) . as_ref ( ) ) ;", "{ let mut verif_tail = cell_snapshot ( heap , $h ) ; $v . append ( & mut verif_tail ) ; }", why="Vec::extend_from_slice(&[T]): the items appended in order"),
+        Rule("R13", "$v . extend_from_slice ( CELL ( $h ) . as_ref ( ) ) ;", "{ let mut verif_tail = cell_snapshot ( heap , $h ) ; $v . append ( & mut verif_tail ) ; }", why="Vec::extend_from_slice(&[T]): the items appended in order"),
+        Rule("R13", "vector ! ( raw $$e )", "Primitive :: Vector ( cell_new ( heap , $$e ) )", why="vector!(raw v) = Primitive::Vector(GcVector::new(v)): a new cell"),
+        Rule("R1", ". clone ( )", ". vclone ( )", why="clone of a handle keeps the cell"),
+    ], log, "add[Vector]")
+    ba = [x for j, t in enumerate(ba) for x in ((["Primitive", "::", t]) if (t == "Vector" and j + 1 < len(ba) and ba[j + 1] == "(" and (j == 0 or ba[j - 1] != "::")) else [t])]      # `use Primitive::*`: variants written qualified
+    check_closed(ba, "add[Vector]")
+    fns.append(f"""
+//@ OBL C13.concat.new-list
+// `a + b` on two lists: a NEW list (no existing alias points to it) holding a's elements followed by b's; a and b are untouched
+pub fn add_vectors(x: &VecH, y: &VecH, heap: &mut Heap) -> (r: Primitive)
+    requires live(old(heap), x), live(old(heap), y)
+    ensures r is Vector && !vecs(old(heap)).contains_key(vid(&r->Vector_0))
+        && vecs(final(heap)) == vecs(old(heap)).insert(vid(&r->Vector_0), vecs(old(heap))[vid(x)] + vecs(old(heap))[vid(y)]) && maps(final(heap)) == maps(old(heap)),
+{{
+{render(ba, 1)}
+}}
+""")
+    obls.append(Obl("C13.concat.new-list", ["C13"], fn="Add for &Primitive[(Vector, Vector)]", desc="`a + b` on lists: a new list with a's elements followed by b's; both operands untouched"))
     obls.append(Obl("C15.vec_op.push-value", ["C15", "C13", "C08"], fn="vec_op_push", desc="vec_op `+R`: the element's value (copied out of any element / field pointer) is appended to the list in register R"))
     obls.append(Obl("C13.index.vector", ["C13", "C17", "C01"], fn="index_vector", desc="list index read/assignment target: out-of-range index -> failure, no value; in range -> pointer to exactly that slot"))
     gen = header(log, f"{FUNC}: BuiltInFunction::run arms " + ", ".join(ARMS) + f"; {PRIM}: Primitive::equals (list arm); instruction.rs: vec_op (list index arm)") + SPEC + "\n".join(fns) + "\n} // verus!\nfn main() {}\n"
